@@ -182,8 +182,11 @@ def universe(level: Level, nkeys=2, nvalues=2, cap=None, _depth=0, child_nkeys=1
                     continue          # shadowed by an earlier sibling: not this rule's row
                 # rows governed by a %global rule are leaves of the universe (the rule is in force inside itself,
                 # which would nest without end)
+                # (%rewrite %global rules - "the block is rewritten as a whole" - get one level of nesting so that
+                #  changes deep inside a rewritten block are part of the universe)
+                nest_ok = (not r.glob) or (r.rewrite and _depth < 2)
                 sub = (universe(g[2], child_nkeys, nvalues, cap, _depth + 1, child_nkeys)
-                       if (g[2].all_rules() and not r.glob and _depth < 4) else [[]])
+                       if (g[2].all_rules() and nest_ok and _depth < 4) else [[]])
                 for ch in sub:
                     opts.append([row, ch])
             per_key.append(opts)
